@@ -204,6 +204,14 @@ class RandomStub:
         self.ctx.prob = core.mul(self.ctx.prob, RealFraction(1, b - a + 1))
         return a + i
 
+    def randrange(self, start, stop=None, step=1):
+        if stop is None:
+            start, stop = 0, start
+        vals = list(range(int(start), int(stop), int(step)))
+        if not vals:
+            raise ValueError("empty range for randrange()")
+        return self.choice(vals)
+
     def __getattr__(self, k):
         raise HarnessError(f"random.{k} is not stubbed")
 
@@ -271,6 +279,21 @@ class NpRandomStub:
 
     def random(self, size=None):
         return self.uniform(0, 1, size)
+
+    def rand(self, *shape):
+        return self.uniform(0, 1, shape if shape else None)
+
+    def randint(self, low, high=None, size=None):
+        if high is None:
+            low, high = 0, low
+        vals = list(range(int(low), int(high)))
+        if not vals:
+            raise ValueError("low >= high")
+        if size is None:
+            return self._r.choice(vals)
+        if isinstance(size, (tuple, list)):
+            raise HarnessError("np.random.randint with a shape tuple is not modelled")
+        return NpList([self._r.choice(vals) for _ in range(int(size))])
 
     def __getattr__(self, k):
         raise HarnessError(f"np.random.{k} is not stubbed")
